@@ -448,6 +448,31 @@ def a12(ctx, rid):
     c07.h7(ctx, rid)
 
 
+def a13(ctx, rid):
+    """memory accounting of the in-memory index: `records_allocated` counts *capacity* (push adds the growth of a vector's
+    capacity), so wherever the counter is seeded for an index loaded back from a file it is computed from the capacities of
+    the per-key vectors.  Seeded from lengths or from the record count it is smaller than what later pushes assume, the
+    subtraction in memory_used underflows and panics inside the maintenance worker (force-update statistics)"""
+    prog = ctx.prog
+    n = 0
+    for (f, bb, o, how) in core.field_sources(prog, 'blob::index::core::MemoryAttrs', 'records_allocated'):
+        root = prog.fns[prog.fns[f.id].root]
+        if (root.trait_item or '').startswith('std::default::Default::') or how != 'construct':
+            continue
+        n += 1
+        key = 'allocated-seeded-from-capacity|%s' % root.id
+        fam = [prog.fns[g] for g in prog.family(root.id)]
+        caps = [c for g in fam for c in g.calls if c.bb in g.reachable() and c.name == 'capacity' and c.path.startswith('std::vec::Vec')]
+        lv = core.scalar_leaves(prog, f, o, depth=1) if o is not None else set()
+        params = {v for (k, v) in lv if k == 'arg'}
+        if caps and not params:
+            ctx.ok(rid, key, f.where(bb), 'computed from Vec::capacity of the per-key vectors')
+        else:
+            ctx.bad(rid, key, f.where(bb), 'records_allocated of a reloaded index is not computed from the capacities of its vectors (%s): after one more push for a key with spare capacity records_count exceeds it and memory_used() underflows - in the worker this ends background maintenance' % (sorted(str(x) for x in lv) or 'no capacity call'))
+    if n < 1:
+        raise core.AnchorLost('constructions of MemoryAttrs.records_allocated: %d' % n)
+
+
 RULES = [
     Rule('C15.A1', 'every header insertion is counted exactly once; the loader seeds the count from the index file, not from the key map', a1, 5),
     Rule('C15.A2', 'public accessors of the closed-blob vector agree that empty slots are absent', a2, 4),
@@ -460,5 +485,6 @@ RULES = [
     Rule('C15.A10', 'per-key header vectors of the in-memory index only grow or are cleared as a whole', a10, 1),
     Rule('C15.A11', 'records_count_in_active_blob answers Some only where it saw an active blob', a11, 1),
     Rule('C15.A12', 'a quarantined blob keeps its own file name (its id stays countable; C07.H7 instance)', a12, 1),
+    Rule('C15.A13', 'the allocation counter of a reloaded index is seeded from the capacities of the per-key vectors', a13, 1),
     Rule('C15.A6', 'next_blob_id is fed by the ids of opened, failed and quarantined blobs (C07.H6/H6d instances)', a6, 4),
 ]
